@@ -200,6 +200,32 @@ def _inject_in(rng, res, root, node, cont, path, kind):
         it = ["k", src[1], src[2]]
         _ins_at(rng, node, it, after=src)
         return it, "key", "match"
+    if kind == "repeat-wild":
+        w = [c for c in cont.children
+             if c["kind"] == "key" and c["name"] == "+"]
+        if not w:
+            return None
+        declared = set()
+        for d in cont.children:
+            if d["name"] not in ("*", "+"):
+                declared.add(family.norm_key(
+                    d.get("_declared_under", kt), d["name"]))
+        cand = [it for it in items if it[0] == "k" and
+                texts._safe_norm(kt, it[1]) is not None and
+                texts._safe_norm(kt, it[1]) not in declared]
+        if cand:
+            src = rng.choice(cand)
+            it = ["k", texts.variant(rng, src[1], kt != "identifier"),
+                  src[2]]
+            _ins_at(rng, node, it, after=src)
+        else:
+            k = rng.choice(family.WILD_KEYS[kt])
+            v = family.VALID[w[0]["datatype"]][0][0]
+            src = ["k", k, v]
+            _ins_at(rng, node, src)
+            it = ["k", k, v]
+            _ins_at(rng, node, it, after=src)
+        return it, "key", "match"
     if kind == "bad-key":
         it = ["k", rng.choice(family.BAD_KEYS[kt]), "v"]
         _ins_at(rng, node, it)
@@ -363,7 +389,8 @@ def _inject_in(rng, res, root, node, cont, path, kind):
     return None
 
 
-KINDS = ["section-datatype", "section-datatype", "raw-syntax", "raw-syntax",
+KINDS = ["repeat-wild", "section-datatype", "section-datatype",
+         "raw-syntax", "raw-syntax",
          "redefine", "undefined-in-directive",
          "bad-dollar-in-directive", "undefined-in-value",
          "bad-dollar-in-value", "unknown-key", "repeat-single", "bad-key",
@@ -416,13 +443,33 @@ def file_url(path):
     return "file://" + urllib.request.pathname2url(os.path.abspath(path))
 
 
-def observe(schema, main):
+def observe(schema, main, overrides=()):
     import ZConfig
     try:
-        ZConfig.loadConfig(schema, main)
+        ZConfig.loadConfig(schema, main, overrides)
     except Exception as e:  # noqa
         return e
     return None
+
+
+def harmless_override(rng, p):
+    """'newkey=value' for a top-level wildcard key, or an existing optional
+    top-level string key; checked to keep the unfaulted text acceptable."""
+    from ..mon import outcome
+    top = p.res.top
+    cand = []
+    for c in top.children:
+        if c["kind"] in ("key", "multikey") and not c["required"] and \
+                c["datatype"] in ("string", "null"):
+            if c["name"] == "+":
+                cand.append("ovr9key=v")
+            else:
+                cand.append(c["name"] + "=v")
+    if not cand:
+        return None
+    spec = rng.choice(cand)
+    o = outcome.load_text(p.schema, p.text, overrides=[spec])
+    return spec if o[0] == "ok" else None
 
 
 def observe_text(schema, text):
@@ -486,7 +533,24 @@ def judge(ctx, p, rng, dirpath):
         if exp[0] != "reject":
             res.count("fault_not_effective")
             continue
-        for included in (False, True, "nourl"):
+        # an override list that is fine on the unfaulted text and does not
+        # touch the culprit: positions must not depend on its presence
+        spec = None
+        if stage in ("match", "keyconv", "valueconv") and rng.random() < 0.5:
+            spec = harmless_override(rng, p)
+            if spec is not None:
+                # the fault must survive the override (it would not if the
+                # override replaces the culprit's own key)
+                from ..gen import overrides as ovr
+                try:
+                    edited = texts.render(ovr.apply_overrides(
+                        p.res, root, [spec]))
+                    if refmatch.conform(p.res, edited)[0] != "reject":
+                        spec = None
+                except ovr.NoSuchSection:
+                    spec = None
+        for included in (False, True, "nourl") + (("override",)
+                                                  if spec else ()):
             marked = list(lines)
             for i in ok_idx:
                 if i is not None:
@@ -516,6 +580,9 @@ def judge(ctx, p, rng, dirpath):
                 want = [(ln, None) for ln, _ in want]
                 e = observe_text(p.schema, layout.texts()["b/main.conf"])
                 res.count("judged_without_url")
+            elif included == "override":
+                e = observe(p.schema, main, [spec])
+                res.count("judged_with_override")
             else:
                 e = observe(p.schema, main)
             res.count("judged")
@@ -526,14 +593,15 @@ def judge(ctx, p, rng, dirpath):
                 res.count("judged_included")
             depth = len(find_path(root, target) or ()) - 1
             cls = type(e).__name__ if e is not None else "none"
-            res.sig("%s|%d|%s|%s|%s" % (kind, depth, "nourl" if included ==
-                                        "nourl" else "inc" if included
-                                        else "main", cls, exotic))
+            res.sig("%s|%d|%s|%s|%s" % (kind, depth, included if
+                                        isinstance(included, str) else
+                                        "inc" if included else "main",
+                                        cls, exotic))
             case = {"model": p.model, "files": layout.texts(),
                     "kind": kind, "expected_positions": want,
                     "stage": stage}
-            res.sample("%s-%s" % (kind, "nourl" if included == "nourl" else
-                                  "inc" if included else "main"),
+            res.sample("%s-%s" % (kind, included if isinstance(included, str)
+                                  else "inc" if included else "main"),
                        dict(case, error=cls), 1)
             check(res, case, e, want, stage, target, kind)
 
